@@ -29,10 +29,24 @@ def slice_for(t):
 MACRO_GENERATED = {"impl_assign_all_range_fxn", "impl_assign_range_all_fxn"}   # `fn $name` inside a macro: not extractable
 
 
-def call(fxn):
+KINDS_USED = ["f64", "u8", "i64"]
+
+
+def family(forms):
+    """arm family of the dispatch chain that handles these index forms: '' (indices), b / bu / ub (masks)"""
+    if "B" not in forms:
+        return ""
+    if len(forms) == 2 and forms[0] == "B" and forms[1] == "V":
+        return "bu"
+    if len(forms) == 2 and forms[0] == "V" and forms[1] == "B":
+        return "ub"
+    return "b"
+
+
+def call(fxn, t, sform, fam=""):
     if fxn in MACRO_GENERATED:
         return "%s(sink, source, ixarr.to_vec())" % fxn
-    return "vp_%s(sink, source, &ixarr[..])" % fxn
+    return "vp_%s_%s_%s%s(sink, source, &ixarr[..])" % (fxn, t.lower(), sform.lower(), fam)
 
 
 def gen(t, sform, shape, forms, lens, src_kind, domain, tier):
@@ -78,7 +92,7 @@ def gen(t, sform, shape, forms, lens, src_kind, domain, tier):
         b += exp
         b.append("kani::cover!(true, \"VP:reached-call\");")
         b.append("let ixarr = [%s];" % ivs)
-        b.append("match %s {" % call(fxn))
+        b.append("match %s {" % call(fxn, t, sform, family(forms)))
         b.append("  Err(e) => { forget(e); assert!(false, \"VP:rejected-valid-assignment\"); }")
         b.append("  Ok(f) => {")
         b.append("    f.solve();")
@@ -93,7 +107,7 @@ def gen(t, sform, shape, forms, lens, src_kind, domain, tier):
         b.append("kani::assume(!(%s));" % oks)
         b.append("kani::cover!(true, \"VP:reached-call\");")
         b.append("let ixarr = [%s];" % ivs)
-        b.append("match %s {" % call(fxn))
+        b.append("match %s {" % call(fxn, t, sform, family(forms)))
         b.append("  Err(e) => { kani::cover!(true, \"VP:rejected-err\"); forget(e); { let cur = sc.borrow(); assert!(%s, \"VP:sink-changed-by-rejected-assignment\"); } }" % unchanged)
         b.append("  Ok(f) => {")
         b.append("    f.solve();")
@@ -116,7 +130,7 @@ def gen(t, sform, shape, forms, lens, src_kind, domain, tier):
           unwind=max([1, MAXSEL if src_kind == "vector" else 1] + [n for f_, n in zip(forms, lens) if f_ in "VB"] + [d for f_, d in zip(forms, dims) if f_ in "AB"]) + 2,
           tier=tier, group=fxn, solver="kissat")
     h.slice = slice_for(t)
-    h.stub_loc = True      # impl_assign_fxn! starts from an Err(..).with_compiler_loc() value on every path
+    h.stub_loc = True
     if fxn in MACRO_GENERATED:
         h.tier = "thorough"
     h.heavy = True
@@ -159,7 +173,15 @@ def plan(tier, seed):
     prelude, extracted = "", {}
     for fx in sorted(set(list(DISPATCH_1D.values()) + list(DISPATCH_2D.values())) - MACRO_GENERATED):
         t_, h_ = extract_dispatch_fn(src, fx, "src/interpreter/src/stdlib/assign/matrix.rs")
-        prelude += t_
+        for k_ in KINDS_USED:
+            c_, removed = cut_kind_chain(t_.replace("pub fn vp_%s(" % fx, "pub fn vp_%s_%s(" % (fx, k_.lower())), k_)
+            if removed == 0:
+                raise SystemExit("INCONCLUSIVE: %s no longer has the per-kind or_else chain the harness generator expects" % fx)
+            for sf_ in ("RD", "VD", "MD"):
+                for fam_ in ("", "b", "bu", "ub"):
+                    d_ = direct_arms(c_, k_, sf_, sf_.lower() + fam_, want=fam_)
+                    if d_ is not None:
+                        prelude += d_
         extracted[fx] = h_
     return {
         "harnesses": hs,
@@ -170,7 +192,13 @@ def plan(tier, seed):
                        "symbolic indices; post-state compared with a reference model element by element",
         "bounds": "sinks 1x3, 3x1, 2x2, 2x3; index vectors of length 2; masks of length dim-1/dim/dim+1; at most %d addressed positions per "
                   "dimension; scalar sources for every form, vector sources for 1-D vector/mask targets; element kind f64 (u8, i64 thorough)" % MAXSEL,
-        "outside": ["op-assignment (+= etc.): machines/math/src/op_assign", "failure atomicity on panicking paths (Kani models panic as abort: the sink "
+        "outside": ["the or_else plumbing of impl_assign_fxn! that tries the storage forms in turn: the extracted bodies invoke the arm macro "
+                    "(impl_assign_*_arms! / impl_set_*_arms!) for the sink's storage form directly (common.direct_arms), because every failed attempt "
+                    "builds a MechError whose drop (Arc<dyn Any>) symbolic execution cannot get through",
+                    "the attempts of the dispatch functions for the 15 element kinds other than the sink's: the extracted bodies keep only the "
+                    "`impl_assign_fxn!(.., <kind>, ..)` links of the or_else chain for the kind under test (common.cut_kind_chain: arms of another "
+                    "kind cannot match, each failed attempt only builds and drops an error value)",
+                    "op-assignment (+= etc.): machines/math/src/op_assign", "failure atomicity on panicking paths (Kani models panic as abort: the sink "
                     "after a panic is not observable)", "source kind conversion (`a kind the matrix cannot hold`) - decided by the statement-level "
                     "code in statements.rs", "histories of several assignments (covered by induction on the arbitrary pre-state)",
                     "subscript_ref()/variable_assign() statement glue"],
